@@ -394,7 +394,17 @@ struct Gen {
     {
         InfoSet i;
         int n = rng.below(maxIds + 1);
-        for (int k = 0; k < n; k++) i.ids << (k && rng.below(5) == 0 ? i.ids[rng.below(k)] : identity());
+        for (int k = 0; k < n; k++) {
+            uint32_t r = k ? rng.below(10) : 9;
+            if (r < 2) i.ids << i.ids[rng.below(k)];                      // the same identity again
+            else if (r < 5) {                                             // differs from an earlier one in a single attribute
+                Id d = i.ids[rng.below(k)];
+                QString *c[] = { &d.lang, &d.name, &d.type, &d.cat };
+                QString nv = rng.below(3) ? str(2) : token();
+                *c[rng.below(rng.below(3) ? 2 : 4)] = nv;
+                i.ids << d;
+            } else i.ids << identity();
+        }
         int m = rng.below(maxFeats + 1);
         for (int k = 0; k < m; k++) i.feats << (k && rng.below(4) == 0 ? i.feats[rng.below(k)] : feature());
         if (rng.below(2)) {
@@ -410,9 +420,9 @@ struct Gen {
             for (int j = 0; j < k; j++) {
                 Fld f; f.key = text(2);
                 if (f.key == FORM_TYPE) f.key += QL("x");
-                uint32_t r = rng.below(10);
-                if (r < 4) { f.kind = 't'; f.vals << text(3); }
-                else if (r < 9) { f.kind = 'l'; int c = rng.below(4); for (int q = 0; q < c; q++) f.vals << (q && rng.below(4) == 0 ? f.vals[rng.below(q)] : text(2)); }
+                uint32_t r = rng.below(20);
+                if (r < 8) { f.kind = 't'; f.vals << text(3); if (f.vals[0].isEmpty() && rng.below(4)) f.vals[0] = QL("v"); }
+                else if (r < 19) { f.kind = 'l'; int c = rng.below(8) ? 1 + rng.below(3) : 0; for (int q = 0; q < c; q++) f.vals << (q && rng.below(4) == 0 ? f.vals[rng.below(q)] : text(2)); }
                 else { f.kind = 'b'; f.vals << (rng.coin() ? QL("1") : QL("0")); }
                 bool dupKey = false;
                 for (auto &g : i.fields) if (g.key == f.key) dupKey = true;
@@ -761,8 +771,13 @@ static void runClientCase(Rng &rng, Gen &g, long long n)
     // THE property: advertised == hash of what is answered
     if (xep == ver.toStdString()) oraclePass()++;
     else emitFailKeys(explain(w, ver.toStdString()), "C20:advertised-ne-answered", replay);
-    // a peer following §5.4 item 4 treats repeated features as ill-formed: counted, see report
-    { std::set<std::string> fs; bool dup = false; for (auto &f : w.feats) if (!fs.insert(f).second) dup = true; if (dup) stat("client_replies_with_repeated_feature"); }
+    // a peer verifying per §5.4 item 4 treats a reply with a repeated feature as ill-formed, i.e. cannot validate the advertised hash
+    {
+        std::set<std::string> fs; std::string dup;
+        for (auto &f : w.feats) if (!fs.insert(f).second) dup = f;
+        if (!dup.empty()) { oracleFail("C20:reply-repeats-feature", "repeated: " + dup + " ; " + replay); stat("client_replies_with_repeated_feature"); }
+        else oraclePass()++;
+    }
     stat("client_cases");
     stat("client_reply_features", (long long)w.feats.size());
     stat("client_reply_identities", (long long)w.ids.size());
@@ -825,7 +840,10 @@ int main(int argc, char **argv)
     QCoreApplication app(argc, argv);
     Args a = parseArgs(argc, argv);
     bool thorough = a.tier == "thorough";
-    Rng rng(a.seed);
+    // vh::Rng's state for seed n+1 is the state for seed n advanced by one step, i.e. consecutive seeds replay the same stream
+    // shifted by one draw; scramble the seed first so that VERIF_SEED=1,2,3 explore different cases
+    auto scramble = [](uint64_t z) { z += 0x9E3779B97F4A7C15ull; z = (z ^ (z >> 30)) * 0xBF58476D1CE4E5B9ull; z = (z ^ (z >> 27)) * 0x94D049BB133111EBull; return z ^ (z >> 31); };
+    Rng rng(scramble(scramble(a.seed) ^ 0xC20C20C20ull));
     Gen g(rng);
 
     // ---- corpus: XEP-0115 examples, the collation witness, minimized quirks
